@@ -35,8 +35,9 @@ CLAIM = dict(
     "(full block system <=> Schur-complement system + flux formula, W diagonal invertible), pressure_equiv (under 1^T D = 0, zero-mean "
     "source, zero last rhs entry: reduced system <=> pinned pure-pressure system with p_k = 0, lambda = 0), full_iff_pinned (the three "
     "formulations have the same solution SET), full_system_unique (ordered field, positive weights, kernel of D^T = constants: at most "
-    "one solution, hence THE same flux/pressure/multiplier; the kernel hypothesis for the FV grid - connectedness of the cell graph - is "
-    "an explicit hypothesis, not derived), full_system_homogeneous. BRIDGE to the executable model the driver runs (every matrix "
+    "one solution, hence THE same flux/pressure/multiplier), with the kernel hypothesis DERIVED for the finite-volume divergence of every "
+    "tensor grid with non-zero face areas (cell_graph_connected from C07's connectivity theorems, fv_kerDT_const from C06's div_column, "
+    "fv_full_system_unique), full_system_homogeneous. BRIDGE to the executable model the driver runs (every matrix "
     "tabulated from an entry formula over Q; eliminate_flux reads only the diagonal from the matrix handed in and D, D^T, the constant "
     "sub-block from the setup-time cache, as the code does): model_full_is_abstract / model_reduced_is_abstract / model_pinned_rows "
     "identify assembleFull, eliminateFlux, eliminateMultiplier with the abstract operators on Fin nf, Fin nc; model_linearSolve_sound: "
@@ -58,8 +59,10 @@ CLAIM = dict(
     "against the original full system with an a-posteriori bound.",
     note="KNOWN FINDINGS (reported, exit 0): formulation 'flux_reduced'/'flux-reduced' with linear_solver 'amg'/'cg' does not solve the full "
     "system on grids with >= 100 cells (indefinite non-symmetric saddle system; signature carries the size class, a failure of those pairs "
-    "on 2..99 cells is a violation), CG divides by zero on the single-cell grid, AMG's coarse pseudo-inverse mis-solves it end to end for a "
-    "small Bregman penalty. A matrix handed to linear_solve whose off-diagonal blocks differ from the solver's own is silently solved with "
+    "on 2..99 cells is a violation; non-finite / misshaped results have their own signature and are violations), CG divides by zero on the "
+    "single-cell grid, AMG's coarse pseudo-inverse mis-solves it end to end for a small Bregman penalty (signature carries penalty regime "
+    "and magnitude class rel<=1e-3). Option lumping=False is refused at construction (NotImplementedError, probed on every run); all linear "
+    "systems of this check are built by the harness from random weights (cell weight images / lumping do not enter linear_solve). A matrix handed to linear_solve whose off-diagonal blocks differ from the solver's own is silently solved with "
     "the cached blocks (model and code agree; outside C08, which quantifies over systems the solver assembles). petsc4py is not installed: "
     "ksp is tabulated as unavailable. AMG/CG accuracy is a measured quantity (tolerance = configured rtol x ||reduced rhs||).",
     technique="Lean 4 proofs (Finset algebra, list induction; decide over generated tables) + differential correspondence + exact-residual oracle",
@@ -550,7 +553,7 @@ def one_system(ctx, d, usable, shape, seed_tag, tight=False, only=None, data=Non
             if isinstance(r[0], np.ndarray):
                 handed_out.append((step, r[0], np.array(r[0], copy=True)))
             if x.shape != b0.shape or not np.all(np.isfinite(x)):
-                out.append(dict(sig=f"C08:linear_solve:formulation={f}:linear_solver={s}:residual-vs-full-system:{size_class(shape)}",
+                out.append(dict(sig=f"C08:linear_solve:formulation={f}:linear_solver={s}:non-finite-or-misshaped:{size_class(shape)}",
                                 what=f"solution returned by linear_solve[{tag}] has the wrong shape or non-finite entries on grid {shape}, step {step}",
                                 pair=[f, s], step=step))
                 break
@@ -709,7 +712,10 @@ def schedule_oracle(ctx, d, usable, shape, L, every, num_iter, scale=1.0):
             # direct pairs differ by rounding only; iterative pairs solve to 1e-11: 1e-6 / 1e-5 relative leave orders of margin
             lim = (1e-5 if pr[1] in ("amg", "cg") else 1e-6) * max(abs(ref), 1e-12)
             if not abs(v - ref) <= lim:
-                ctx.fail(f"C08:distance(bregman,update-schedule):formulation={pr[0]}:linear_solver={pr[1]}:differs-from-full-direct",
+                # class of the discrepancy: penalty regime (L x mass scale) and relative magnitude
+                relv = abs(v - ref) / max(abs(ref), 1e-300)
+                cls = ("small-penalty" if L * scale < 1e-6 else "regular-penalty") + (":rel<=1e-3" if relv <= 1e-3 else ":rel>1e-3")
+                ctx.fail(f"C08:distance(bregman,update-schedule):formulation={pr[0]}:linear_solver={pr[1]}:differs-from-full-direct:{cls}",
                          f"Bregman distance {v!r} with {pr} differs from {ref!r} (full/direct) on grid {shape} (L={L}, update every {every})",
                          dict(rp0, pair=list(pr), value=v, reference=ref))
         ctx.cov.setdefault("schedule_distance_spread", []).append(max(vals.values()) - min(vals.values()))
@@ -808,6 +814,26 @@ def cache_correspondence(ctx, d, usable):
         ctx.log(f"correspondence cached-solver: {len(diffs)} disagreements, e.g. {lines[i]} model={trimmed[i]} impl={impl[i]}")
 
 
+def lumping_probe(ctx, d):
+    """option lumping=False (a non-diagonal face mass matrix would break the diagonal-only Schur complement of the reduced
+    formulations): currently refused at construction; if it ever constructs, every formulation must still solve darcy_init"""
+    for f in ("full", "flux_reduced", "pressure"):
+        w = call(make_solver, d, (3, 4), f, "direct", lumping=False)
+        ctx.count(("lumping", f))
+        if isinstance(w, Raised):
+            ctx.cov.setdefault("lumping_false", {})[f] = repr(w)
+            continue
+        nf, nc = int(w.grid.num_faces), int(w.grid.num_cells)
+        rhs = random_rhs(ctx.rng, nf, nc)
+        r = call(w.linear_solve, w.darcy_init.copy(), rhs.copy())
+        res = float("inf") if isinstance(r, Raised) else float(np.abs(w.darcy_init @ np.asarray(r[0], dtype=float) - rhs).max())
+        ctx.cov.setdefault("lumping_false", {})[f] = f"constructs; |darcy_init x - b| = {res:.3e}"
+        if not res <= 1e-9 * max(float(np.abs(rhs).max()), 1.0):
+            ctx.fail(f"C08:linear_solve:lumping=False:formulation={f}:residual-vs-full-system",
+                     f"with lumping=False (non-diagonal face mass matrix) linear_solve[{f},direct] does not solve the solver's own darcy_init: "
+                     f"residual {res:.3e}", {"kind": "lumping", "formulation": f})
+
+
 def oracle(ctx, d, voc, construct, accept):
     # (1) dispatch: every documented formulation is usable; no accepted spelling falls through
     for f in voc["documented_f"]:
@@ -840,13 +866,13 @@ def oracle(ctx, d, voc, construct, accept):
         if fails:
             # a tolerance miss of an iterative back-end is re-run once (same system, failing pairs only) with tightened
             # solver options before it counts
-            numeric = [x for x in fails if ":residual-vs-full-system:" in x["sig"] or ":differs-from:" in x["sig"]]
+            numeric = [x for x in fails if ":residual-vs-full-system:" in x["sig"] or ":differs-from:" in x["sig"] or ":non-finite-or-misshaped:" in x["sig"]]
             hard = [x for x in fails if x not in numeric]
             retry = {tuple(x["pair"]) for x in numeric if x["pair"][1] in ("amg", "cg")}
             if retry and data is not None:
                 again, _ = one_system(ctx, d, usable, shape, None, tight=True, only=retry | {("full", "direct")}, data=data)
                 keep = [x for x in numeric if tuple(x["pair"]) not in retry]
-                numeric = keep + [x for x in again if ":residual-vs-full-system:" in x["sig"] or ":differs-from:" in x["sig"]]
+                numeric = keep + [x for x in again if ":residual-vs-full-system:" in x["sig"] or ":differs-from:" in x["sig"] or ":non-finite-or-misshaped:" in x["sig"]]
                 ctx.cov["retried_with_tight_options"] = ctx.cov.get("retried_with_tight_options", 0) + 1
             for x in hard + numeric:
                 ctx.fail(x["sig"], x["what"], {"kind": "system", "shape": list(shape), "pair": x.get("pair"), "seed": ctx.seed,
@@ -878,12 +904,13 @@ def run(ctx):
         must = [(n,) for n in range(1, 13)] + [(a, b) for a in range(1, 5) for b in range(1, 5)] + \
                [(a, b, c) for a in range(1, 4) for b in range(1, 3) for c in range(1, 3)] + [(7, 7), (5, 5, 5), (1, 7), (5, 1, 5)]
         shapes = must + [ctx.rng.choice(allshapes) for _ in range(10)]
+    lumping_probe(ctx, d)
     cache_correspondence(ctx, d, usable)
     surgery_correspondence(ctx, d, shapes)
     small = [(1,), (2,), (5,), (1, 1), (2, 2), (1, 3), (3, 2), (2, 1, 2), (2, 2, 2)]
     assembly_correspondence(ctx, d, small + [ctx.rng.choice([s for s in allshapes if np.prod(s) <= 30]) for _ in range(ctx.pick(4, 30))])
     solve_correspondence(ctx, d, usable, [(2,), (1, 1), (2, 2), (3, 2), (2, 1, 2)] + ([(4, 3), (2, 2, 2), (5,)] if ctx.big else []),
-                         ctx.pick(2, 5))
+                         ctx.pick(4, 5))
     ctx.cov["exhaustive"] = bool(ctx.big)
     ctx.cov["rule"] = ("dispatch: exhaustive over documented/accepted formulation spellings x back-ends (G1); CSC surgery: all 186 C07-range "
                        "shapes in the thorough tier (a fixed subset + random ones in quick); linear systems: fixed boundary shapes + random "
